@@ -193,18 +193,10 @@ func (h *c02Hist) randomOp(kindBias int, gapSafe bool) {
 		if nsExists && nsl == 1 {
 			lbl = 0
 		}
-		e.op(cl.nsSet(k.ns, lbl))
-		e.afterNsChange()
+		e.nsSetOp(k.ns, lbl)
 	case r < 18 && !gapSafe && nsExists: // namespace delete (cascade)
 		h.nsOps++
-		lines, err := cl.nsDel(k.ns)
-		for i, l := range lines {
-			if i == len(lines)-1 {
-				e.op(l, err)
-			} else {
-				e.op(l, nil)
-			}
-		}
+		e.nsDelOp(k.ns)
 	case r < 40 && exists && !gapSafe: // delete
 		h.deletes++
 		h.deleted[k] = true
@@ -231,8 +223,7 @@ func (h *c02Hist) randomOp(kindBias int, gapSafe bool) {
 				return
 			}
 			h.nsOps++
-			e.op(cl.nsSet(k.ns, rng.Intn(2)))
-			e.afterNsChange()
+			e.nsSetOp(k.ns, rng.Intn(2))
 		}
 		if h.deleted[k] {
 			h.recreate++
@@ -253,6 +244,51 @@ func (e *c02Env) afterNsChange() {
 }
 
 func (e *c02Env) setActive(ms []*c02Mon) { e.active = ms }
+
+// markStale remembers the varying informers a namespace has right now: once the namespace stops
+// matching they must go, and a later re-appearance must bring new ones. Waiting for "the informers
+// of the namespace exist" would otherwise be satisfied by the old ones while the namespace
+// callbacks have not run yet — and a write in that window falls between the new informer's own
+// list and its shared informer's list (the recorded finding, not what these cases are about).
+func (e *c02Env) markStale(ns int) {
+	for _, m := range e.active {
+		if !m.spec.nsSel {
+			continue
+		}
+		for _, inf := range kem.VerifC02Describe(m.mgr.GetMonitor(m.id)) {
+			if inf.Varying && inf.Namespace == c02Namespaces[ns-1] {
+				e.cl.mu.Lock()
+				e.cl.stale[inf.ID] = true
+				e.cl.mu.Unlock()
+			}
+		}
+	}
+}
+
+// nsSetOp / nsDelOp: namespace operations of a running case.
+func (e *c02Env) nsSetOp(ns, lbl int) {
+	e.cl.mu.Lock()
+	was, exists := e.cl.nss[ns]
+	e.cl.mu.Unlock()
+	if exists && was == 1 && lbl != 1 {
+		e.markStale(ns)
+	}
+	e.op(e.cl.nsSet(ns, lbl))
+	e.afterNsChange()
+}
+
+func (e *c02Env) nsDelOp(ns int) {
+	e.markStale(ns)
+	lines, err := e.cl.nsDel(ns)
+	for i, l := range lines {
+		if i == len(lines)-1 {
+			e.op(l, err)
+		} else {
+			e.op(l, nil)
+		}
+	}
+	e.afterNsChange()
+}
 
 // seedWorld creates some namespaces and objects before the monitor exists.
 func (h *c02Hist) seedWorld(kind int) {
